@@ -134,6 +134,8 @@ def instances(r, n):
             out.append(_adapter_instance(name, ad, cfg))
             if name == "csr.Multiplexer":
                 out.append(_adapter_instance(name, ad, high_mux_cfg(r)))
+    for _ in range(n // 2):
+        out.append(hostile_instance(r))
     return out
 
 
@@ -153,6 +155,106 @@ def high_mux_cfg(r):
                      "r": int(acc != "w"), "w": int(acc != "r")})
         at += size
     return {"dw": dw, "aw": aw, "al": 0, "regs": regs, "overlaps": r.choice([None, 0, 0, 0, 1, 2])}
+
+
+def hostile_instance(r):
+    """Constructor arguments drawn from a wide set that includes documented-invalid and ill-typed
+    values: whatever is accepted must elaborate, whatever is refused must be refused descriptively."""
+    from amaranth_soc import wishbone
+    from amaranth_soc.csr.wishbone import WishboneCSRBridge
+    from amaranth_soc.wishbone.sram import WishboneSRAM
+    from amaranth_soc.csr.event import EventMonitor
+    ints = [-1, 0, 1, 2, 3, 7, 8, 12, 16, 24, 32, 64, 65, 128]
+    odd = [None, "8", 8.0, True, (8,), -8]
+
+    def val(pool=ints, p_odd=0.15):
+        return r.choice(odd) if r.random() < p_odd else r.choice(pool)
+    kind = r.choice(["MemoryMap", "csr.Signature", "csr.Element.Signature", "wishbone.Signature", "wishbone.Decoder",
+                     "wishbone.Arbiter", "WishboneSRAM", "csr.Decoder", "csr.Builder", "EventMonitor",
+                     "gpio.Peripheral", "WishboneCSRBridge", "event.Source", "csr.action.RW", "csr.Multiplexer"])
+    feats = r.choice([(), ("err",), ("lock", "cti"), ("bogus",), ("err", "rty", "stall", "lock", "cti", "bte"), "err", None])
+    P = {}
+    if kind == "MemoryMap":
+        P = dict(addr_width=val(), data_width=val(), alignment=val([-1, 0, 1, 2, 5, 40]))
+        mk = lambda: MemoryMap(**P)
+    elif kind == "csr.Signature":
+        P = dict(addr_width=val(), data_width=val())
+        mk = lambda: csr.Signature(**P).create()
+    elif kind == "csr.Element.Signature":
+        P = dict(width=val(), access=r.choice(["r", "w", "rw", "nc", "x", None, 3]))
+        mk = lambda: csr.Element.Signature(**P).create()
+    elif kind in ("wishbone.Signature", "wishbone.Decoder", "wishbone.Arbiter"):
+        P = dict(addr_width=val(), data_width=val(), granularity=val(ints + [None, None]), features=feats)
+        if kind == "wishbone.Signature":
+            mk = lambda: wishbone.Signature(**P).create()
+        elif kind == "wishbone.Decoder":
+            P["alignment"] = val([-1, 0, 1, 3])
+            mk = lambda: wishbone.Decoder(**P)
+        else:
+            mk = lambda: wishbone.Arbiter(**P)
+    elif kind == "WishboneSRAM":
+        P = dict(size=val([0, 1, 2, 3, 4, 8, 64, 100, 1024]), data_width=val(), granularity=val(ints + [None, None]),
+                 writable=r.choice([True, False, None, 1]), init=r.choice([(), [1, 2], [1 << 70], "ab", None]))
+        mk = lambda: WishboneSRAM(**P)
+    elif kind == "csr.Decoder":
+        P = dict(addr_width=val(), data_width=val(), alignment=val([-1, 0, 1, 3, 40]))
+        mk = lambda: csr.Decoder(**P)
+    elif kind == "csr.Builder":
+        P = dict(addr_width=val(), data_width=val(), granularity=val())
+
+        def mk():
+            b = csr.Builder(**P)
+            b.add("r", csr.Register({"f": csr.Field(action.RW, 8)}, access="rw"))
+            return csr.Bridge(b.as_memory_map())
+    elif kind == "EventMonitor":
+        P = dict(n=r.choice([0, 1, 5, 9]), trigger=r.choice(["level", "rise", "fall", "edge", None]),
+                 data_width=val(), alignment=val([-1, 0, 1, 2, 9]))
+
+        def mk():
+            em = event.EventMap()
+            for _ in range(P["n"]):
+                em.add(event.Source())
+            return EventMonitor(em, trigger=P["trigger"], data_width=P["data_width"], alignment=P["alignment"])
+    elif kind == "gpio.Peripheral":
+        P = dict(pin_count=val([-1, 0, 1, 2, 5, 16, 40]), addr_width=val([0, 1, 2, 3, 4, 8]), data_width=val(),
+                 input_stages=val([-1, 0, 1, 2, 5]))
+        mk = lambda: gpio.Peripheral(**P)
+    elif kind == "WishboneCSRBridge":
+        P = dict(csr_aw=val([1, 2, 3, 8]), csr_dw=val(), data_width=val(ints + [None, None]))
+
+        def mk():
+            cb = csr.Interface(addr_width=P["csr_aw"], data_width=P["csr_dw"])
+            cb.memory_map = MemoryMap(addr_width=P["csr_aw"], data_width=P["csr_dw"])
+            return WishboneCSRBridge(cb, data_width=P["data_width"])
+    elif kind == "event.Source":
+        P = dict(trigger=r.choice(["level", "rise", "fall", "both", 0, None]))
+        mk = lambda: event.Monitor(_one_source_map(P["trigger"]))
+    elif kind == "csr.action.RW":
+        P = dict(shape=val([0, 1, 8, 33, -3]), init=val([0, 1, 255, 256, -1, 1 << 40]))
+        mk = lambda: action.RW(P["shape"], init=P["init"])
+    else:
+        P = dict(shadow_overlaps=val([-1, 0, 1, 2, 3, None, None]), aw=r.choice([2, 4]), dw=r.choice([8, 3]))
+
+        def mk():
+            mm = MemoryMap(addr_width=P["aw"], data_width=P["dw"])
+            mm.add_resource(csrmux.MockReg(P["dw"] * 2, "rw"), name=("a",), size=2)
+            mm.add_resource(csrmux.MockReg(P["dw"], "r"), name=("b",), size=1)
+            return csr.Multiplexer(mm, shadow_overlaps=P["shadow_overlaps"])
+
+    def thunk():
+        d = mk()
+        if not isinstance(d, wiring.Component):
+            # plain interfaces / maps: nothing to elaborate; wrap in an empty module
+            m = Module()
+            return {"design": m, "ins": {}, "outs": {}, "clocked": False, "meta": [], "top": False}
+        return {"design": d, "ins": {}, "outs": {}, "clocked": False, "meta": [], "top": True}
+    return {"cls": "hostile:" + kind, "params": {k: repr(v) for k, v in P.items()} | {"features": repr(feats)}, "thunk": thunk}
+
+
+def _one_source_map(trigger):
+    em = event.EventMap()
+    em.add(event.Source(trigger=trigger))
+    return em
 
 
 def tiny_wb_decoder(r):
@@ -281,7 +383,15 @@ def lifecycle(inst):
             break
         except RecursionError as e:
             signal.alarm(0)
-            log(op="elab", n=n, view=view, outcome="timeout", hw="", exc="RecursionError (unbounded recursion)")
+            tail = traceback.extract_tb(e.__traceback__)[-40:]
+            own = sum(1 for f in tail if "amaranth_soc" in f.filename)
+            if own * 2 >= len(tail):
+                # the toolkit's own code recursing: non-termination
+                log(op="elab", n=n, view=view, outcome="timeout", hw="", exc="RecursionError (unbounded recursion)")
+            else:
+                # Amaranth's recursive visitors running out of stack on a very deep expression
+                log(op="elab", n=n, view=view, outcome="error", hw="",
+                    exc="RecursionError-depth: expression nested too deeply for Amaranth's visitors")
             break
         except Exception as e:
             signal.alarm(0)
